@@ -1256,19 +1256,29 @@ Proof.
 Qed.
 
 (* lower-case callee: an identifier followed by call arguments that is not all upper-case/digit/_/- *)
-Lemma violation_forbidden_callee bs n ol p b id p1 args p2 :
+Lemma violation_forbidden_callee bs n p b id p1 args p2 :
   byte_at bs p = Some b -> is_ascii_alphabetic b = true ->
   get_identifier_unchecked bs (S p) = Ok id p1 -> get_call_arguments bs n p1 = Ok (Some args) p2 ->
   is_callee id = false ->
-  get_inline_expression bs (S n) ol p = Err (PError ForbiddenCallee p2 (S p2) None) p2.
+  get_inline_expression bs (S n) false p = Err (PError ForbiddenCallee p2 (S p2) None) p2.
 Proof.
   intros Hb Ha H1 H2 Hc. cbn [get_inline_expression]; fold_knot' bs. unfold bind at 1. unfold current_byte. rewrite Hb.
   assert (E34 : N.eqb b 34 = false) by (revert Ha; unfold is_ascii_alphabetic, in_rng; lia).
   assert (Ed : is_ascii_digit b = false) by (revert Ha; unfold is_ascii_alphabetic, is_ascii_digit, in_rng; lia).
   assert (E45 : N.eqb b 45 = false) by (revert Ha; unfold is_ascii_alphabetic, in_rng; lia).
   assert (E36 : N.eqb b 36 = false) by (revert Ha; unfold is_ascii_alphabetic, in_rng; lia).
-  rewrite E34, Ed, E45, E36, Ha. cbn [andb].
+  rewrite E34, Ed, E45, E36, Ha. cbn [andb negb].
   unfold bind, advance. cbn [Nat.add]. rewrite H1, H2, Hc. reflexivity.
+Qed.
+
+(* the value of a named argument must be a string or number literal: a message, term, function or variable
+   reference or a placeable there is rejected (D32: the identifier branch used to lack the only_literal guard) *)
+Lemma violation_named_argument_not_literal bs n p b :
+  byte_at bs p = Some b -> N.eqb b 34 = false -> is_ascii_digit b = false -> N.eqb b 45 = false ->
+  get_inline_expression bs (S n) true p = Err (PError ExpectedLiteral p (S p) None) p.
+Proof.
+  intros Hb E34 Ed E45. cbn [get_inline_expression]; fold_knot' bs. unfold bind at 1. unfold current_byte. rewrite Hb.
+  rewrite E34, Ed, E45. cbn [andb negb]. rewrite !Bool.andb_false_r. reflexivity.
 Qed.
 
 (* string literals *)
